@@ -4,6 +4,7 @@ import (
 	"io"
 
 	"verif/harness/ev"
+	"verif/harness/ref"
 	"verif/harness/rt"
 )
 
@@ -67,7 +68,7 @@ func (r *schedReader) Read(p []byte) (int, error) {
 // reader with arbitrary read sizes: k calls of Next succeed, each delivering exactly
 // the events of the next document, then io.EOF.
 func pullDecoder(h *rt.H, c *codec) {
-	useReader := h.Choose("reader", 0, 1) == 1
+	useReader := h.Param("READER", 1) == 1 && h.Choose("reader", 0, 1) == 1
 	k := 1
 	if !useReader || h.Param("READERDOCS", 1) > 1 {
 		k = h.Choose("docs", 1, h.Param("DOCS", 2))
@@ -130,10 +131,9 @@ func pullTruncated(h *rt.H, c *codec) {
 	}
 	cut := h.Choose("cut", 1, len(d)-1)
 	pre := d[:cut]
-	// only cuts that really are inside the value (a prefix may itself be complete,
-	// e.g. "12" of "123")
-	var prec ev.Recorder
-	if c.parse(cloneBytes(pre), &prec) == nil {
+	// only cuts that really are inside the value, as judged by the reference decoder
+	// (a prefix may itself be complete, e.g. "12" of "123")
+	if _, class, _ := c.refDecode(h, pre); class != ref.Truncated {
 		return
 	}
 	var rec ev.Recorder
